@@ -58,6 +58,7 @@ Next ==
                      [] e.ev = "read"    -> [ok |-> ReadOk(kv, e), kv |-> kv]
                      [] e.ev = "sizes"   -> [ok |-> SizesOk(e), kv |-> kv]
                      [] e.ev = "poke"    -> [ok |-> TRUE, kv |-> kv]      \* adversarial plant: no observable effect allowed later
+                     [] e.ev = "mstate"  -> [ok |-> TRUE, kv |-> kv]      \* model-vs-real internal state: TieredState.tla's subject
                      [] OTHER            -> [ok |-> FALSE, kv |-> kv]
           IN /\ kv' = r.kv /\ caps' = caps
              /\ skip' = ~r.ok
